@@ -328,8 +328,11 @@ def rational_near(x, rel=1e-4):
     fr = Fraction(x).limit_denominator(64)
     if x != 0 and abs(float(fr) - x) > rel * abs(x):
         fr = Fraction(x).limit_denominator(4096)
+    if x != 0 and abs(float(fr) - x) > rel * abs(x):
+        # very small (or very large) magnitudes: keep the relative accuracy, whatever denominator that takes
+        fr = Fraction(x).limit_denominator(max(4096, int(10.0 / (rel * abs(x))) + 1))
     if x > 0 and fr <= 0:
-        fr = Fraction(x).limit_denominator(10 ** 9)
+        fr = Fraction(x)
     return fr
 
 
@@ -513,6 +516,49 @@ class Problem:
             listed.append(a)
         return sorted(set(listed))
 
+    def _clamp_points(self, conv, rnd, allvars):
+        """parameter points at which a not-provably-inactive clamp is active: greedy coordinate search on the clamp's argument
+        (each parameter pushed to +-6 / +-12 / +-16, up to three parameters in turn) from an ordinary sample point"""
+        out = []
+        for node in getattr(conv, "clamp_nodes", [])[:6]:
+            arg, lo, hi = node.args
+            arg = conv.canon(arg)
+            for want_low in ((True,) if hi is None else (False,) if lo is None else (True, False)):
+                bound = float(lo if want_low else hi)
+                env = self._random_env(rnd, allvars)
+                names = [n for n in sorted(env) if not any(n.startswith(pref) for pref, _, _ in self.var_ranges)]
+
+                def val(e):
+                    try:
+                        return S.evalf(arg, e)
+                    except (ValueError, ZeroDivisionError, OverflowError):
+                        return None
+
+                cur = val(env)
+                found = False
+                for _round in range(3):
+                    if cur is not None and ((cur < bound) if want_low else (cur > bound)):
+                        found = True
+                        break
+                    bestv, beste = cur, None
+                    for nm in names:
+                        for mag in (6.0, -6.0, 12.0, -12.0, 16.0, -16.0):
+                            e2 = dict(env)
+                            e2[nm] = mag
+                            v = val(e2)
+                            if v is None:
+                                continue
+                            if bestv is None or ((v < bestv) if want_low else (v > bestv)):
+                                bestv, beste = v, e2
+                    if beste is None:
+                        break
+                    env, cur = beste, bestv
+                if not found and cur is not None and ((cur < bound) if want_low else (cur > bound)):
+                    found = True
+                if found:
+                    out.append(env)
+        return out
+
     def _float_check(self, g, conv, groups, rnd, allvars):
         """cross-evaluates DAG vs normal form (sum of the per-denominator groups) at a few random rational
         parameter points shared by all goals of the problem; returns (best_env, best_diff, scale, all_zero)"""
@@ -554,7 +600,7 @@ class Problem:
             # parameter values: look further out (rare input regions, e.g. a branch cut or a regulariser) for a
             # parameter point where the two sides differ visibly
             if not hasattr(self, "_wide"):
-                self._wide = []
+                self._wide = [(e_, {}, {}, ([], {})) for e_ in self._clamp_points(conv, rnd, allvars)]
             for j in range(48):
                 if j >= len(self._wide):
                     if j % 2 == 0:
